@@ -14,6 +14,7 @@ class Contract:
         self.qualname = None
         self.fid = None
         self.prop = None
+        self.also = ()
         self.module = None
         self.pre = None
         self.posts = []          # [(name, FunctionDef)]
@@ -102,6 +103,8 @@ def load_contracts(index, only_props=None):
             for kw in dec.keywords:
                 if kw.arg == 'prop':
                     c.prop = _const_eval(kw.value, NSL)
+                if kw.arg == 'also':
+                    c.also = tuple(_const_eval(kw.value, NSL))
             dotted = c.path[:-3].replace('/', '.')
             c.fid = f'{dotted}:{c.qualname}'
             for st in ci.node.body:
